@@ -169,6 +169,8 @@ class Cmp:
         self.viol = []
         self.tab = table
         self.cells = 0
+        self.worst = 0.0      # largest |observed - expected| / tolerance over all compared cells
+        self.worst_by = {}
 
     def col(self, cls, name, ref, extra=0.0, rtol=RT_UNIT, label=None):
         """observed column `name` against ref within half a printed unit + extra + rtol |ref|"""
@@ -185,6 +187,8 @@ class Cmp:
         tol = hu + extra + rtol * numpy.abs(ref)
         bad = ~(numpy.abs(obs - ref) <= tol)
         self.cells += len(obs)
+        self.worst = max(self.worst, float((numpy.abs(obs - ref) / tol).max()))
+        self.worst_by[cls] = max(self.worst_by.get(cls, 0.0), float((numpy.abs(obs - ref) / tol).max()))
         if bad.any():
             i = int(numpy.argmax(numpy.abs(obs - ref) / tol))
             self.viol.append(V(f"c18:{self.mode}:{cls}:mismatch",
@@ -295,6 +299,8 @@ def run_case(case):
         else:
             bad = ~(numpy.abs(pv - want) <= tol)
             c.cells += nrow
+            c.worst = max(c.worst, float((numpy.abs(pv - want) / tol).max()))
+            c.worst_by["V(P)"] = float((numpy.abs(pv - want) / tol).max())
             if bad.any():
                 i = int(numpy.argmax(numpy.abs(pv - want) / tol))
                 viol.append(V("c18:pressure:V:not-at-requested-pressure",
@@ -341,7 +347,7 @@ def run_case(case):
     ncomp = len(model.fits)
     return {"viol": viol, "nontrivial": nrow >= 3 and c.cells >= 3 * nrow,
             "outcome": (f"ok/{mode}/{'table' + str(ncomp) if st is not None else 'eos-only'}{'/density' if model.mass is not None else ''}" if not viol else viol[0]["sig"]),
-            "cells": c.cells}
+            "cells": c.cells, "worst": c.worst, "worst_by": {f"{mode}:{k}": v for k, v in c.worst_by.items()}}
 
 
 # ----------------------------------------------------------------------------- exploration
@@ -395,6 +401,12 @@ def explore(ctx):
     res2 = ctx.run(MOD, "run_case", edges, part="edge-invocations", chunksize=1)
     ctx.notes["edge_invocations"] = len(edges)
     ctx.notes["cells_compared"] += int(sum(r.get("cells", 0) or 0 for r in res2))
+    ctx.notes["largest_error_over_tolerance"] = max([float(r.get("worst") or 0.0) for r in list(res) + list(res2)] or [0.0])
+    by = {}
+    for r in list(res) + list(res2):
+        for k, v in (r.get("worst_by") or {}).items():
+            by[k] = max(by.get(k, 0.0), float(v))
+    ctx.notes["largest_error_over_tolerance_by_column"] = {k: round(v, 4) for k, v in sorted(by.items())}
 
 
 def selftest():
